@@ -2,8 +2,7 @@
    A case = initial dumps of the objects + a history; every step carries the implementation's
    observation: result, accessor events, and the dumps of the objects whose dump changed.
    c_variant selects the model the observation is compared with:
-     0 = S (the specification: the oracle)          1 = I (goja as it is, fx_cur)
-     3 / 5 = I with the N1 / N3 repair switched on as well      7 = I with all repairs      8 = pre-fix I *)
+     0 = S (the specification: the oracle)          any other = I (goja's algorithms transcribed) *)
 From Coq Require Import List Arith NArith Bool.
 Import ListNotations.
 From Verif.C04 Require Import Model.
@@ -14,7 +13,7 @@ Definition nn := N.to_nat.
 Definition key_of (c : N) : key :=
   let c := nn c in
   if Nat.ltb c 6 then KIdx (nth c idx_pool 0%N)
-  else if Nat.ltb c 14 then KStr (c - 6) else KSym (c - 14).
+  else if Nat.ltb c 19 then KStr (c - 6) else KSym (c - 19).
 Definition val_of (c : N) : val :=
   let c := nn c in
   if Nat.eqb c 0 then VUndef else if Nat.ltb c 100 then VNum c else VObj (c - 100).
@@ -189,24 +188,13 @@ End Runner.
 
 Definition s_first_bad (c : tcase) :=
   first_bad sstep (fun h => (h, map s_dump h)) (map sobj_of (c_init c)) (c_init c) (c_steps c) 0.
-Definition i_first_bad (fx : fixes) (c : tcase) :=
-  first_bad (istep fx) (fun h => (map i_ensure h, map i_dump h)) (map iobj_of (c_init c)) (c_init c) (c_steps c) 0.
-
-(* on top of the current tree (fx_cur): 3 = N1 repaired too, 5 = N3 repaired too, 7 = everything repaired;
-   8 = the tree before the F1/F2/N2 repairs (kept to re-identify a regression) *)
-Definition fixes_of_variant (v : nat) : fixes :=
-  match v with
-  | 3 => mkFixes true true true false true
-  | 5 => mkFixes true false true true true
-  | 7 => fx_all
-  | 8 => fx_none
-  | _ => fx_cur
-  end.
+Definition i_first_bad (c : tcase) :=
+  first_bad istep (fun h => (map i_ensure h, map i_dump h)) (map iobj_of (c_init c)) (c_init c) (c_steps c) 0.
 
 Definition case_first_bad (c : tcase) : option nat :=
   match nn (c_variant c) with
   | 0 => s_first_bad c
-  | v => i_first_bad (fixes_of_variant v) c
+  | _ => i_first_bad c
   end.
 Definition check_case (c : tcase) : bool :=
   match case_first_bad c with None => true | Some _ => false end.
@@ -220,7 +208,7 @@ Definition mismatch_ids := mismatch_from 0%N.
 
 (* printed in replays: first diverging step against S and against I, and what S says there *)
 Definition expected (c : tcase) :=
-  (s_first_bad c, i_first_bad fx_cur c,
+  (s_first_bad c, i_first_bad c,
    match s_first_bad c with
    | Some n => model_at sstep (fun h => (h, map s_dump h)) (map sobj_of (c_init c)) (c_steps c) n
    | None => None
